@@ -90,6 +90,11 @@ def judge(res, v, name, text, tag, rank):
             i = [k for k in range(len(lines)) if got_leaves[k] != want_leaves[k]][0]
             seg = want_names[i]
             cause = 'gap' if tables.has_gap(v, seg) else 'row-anomaly' if tables.row_anomalies(v, seg) else tag.split(':')[0]
+            if tag.startswith('withdrawn:') and sorted(got_leaves[i]) == sorted(want_leaves[i]):
+                # known shape (D17): the value at the withdrawn number is kept but encoded after the named fields
+                res.violation('withdrawn-field-number-reordered|%s|%s' % (v, seg), 'v%s find_groups=%s: segment %r re-encoded as %r' % (v, fg, lines[i], olines[i]),
+                              point, rank)
+                continue
             res.violation('leaf-loss|%s|%s|%s|fg=%s' % (cause, v, seg, fg), 'v%s %s [%s] find_groups=%s: segment %r re-encoded as %r' % (v, name, tag, fg, lines[i], olines[i]),
                           point, rank)
             continue
@@ -212,6 +217,30 @@ def excess_unit(v, res):
         res.nontrivial += 1
         judge(res, v, name, '\r'.join([st.msh_line(v, name), 'EVN', 'PID|1', 'PV1|1', line]), 'excess:' + tag, 4)
     res.dims['varies lines'] += len(vcases)
+    # a value at a field number that the version's table skips (withdrawn field), followed by a value in a later, named field
+    for seg in tables.segment_names(v):
+        if tables.segment_anomaly(v, seg) or not tables.has_gap(v, seg) or seg == 'MSH':
+            continue
+        nums = [i for i, fr in tables.field_rows(v, seg) if i] or [0]
+        missing = [g for g in range(2, max(nums)) if g not in nums]
+        later = [n for n in nums if missing and n > missing[0]]
+        if not missing or not later:
+            continue
+        g, n = missing[0], later[0]
+        fields = [''] * n
+        fields[g - 1] = 'w'
+        fields[n - 1] = 'z'
+        line = seg + '|' + '|'.join(fields)
+        lines = [st.msh_line(v, name), 'EVN', 'PID|1', 'PV1|1']
+        if seg in ('EVN', 'PID', 'PV1'):
+            lines[['EVN', 'PID', 'PV1'].index(seg) + 1] = line
+        else:
+            lines.append(line)
+        res.states += 1
+        res.enumerated += 1
+        res.nontrivial += 1
+        judge(res, v, name, '\r'.join(lines), 'withdrawn:%s_%d' % (seg, g), 5)
+        res.dims['values at withdrawn field numbers'] += 1
 
 
 def units(tier):
